@@ -202,3 +202,6 @@ def check(ctx: Ctx) -> None:
     # a closed or dropped channel leaves both tables on every path of the close transition (sendonly included)
     from .C03 import check_transition_complete
     check_transition_complete(ctx, "C18.h")
+    # ... also when a callback fails after its channel object was dropped
+    from .C07 import check_callback_failure_closes
+    check_callback_failure_closes(ctx, "C18.i")
